@@ -183,6 +183,46 @@ def subus_input(rng, nsrc, nanchors, opts_choices=None, allow_dir=True):
     return dict(sources=sources, opts=list(rng.choice(opts_choices or [["-n"]])), window=None, as_dir=as_dir, subus=True)
 
 
+def blocked_input(rng, opts_choices=None):
+    """A worker that stays blocked on its full channel for seconds: a FAST source with well over
+    CHANNEL_CAPACITY+1 messages next to a SLOW source with one message (two, rarely) whose instant
+    lies inside the fast source's range (sometimes equal to one of its instants).  Run with a plan
+    `slow=<slow name>:<2.6-3.5 s>` every send of the slow source (FileInfo, message, FileSummary)
+    takes seconds, during which the coordinator cannot print and the fast worker sits in `send`.
+    Optionally a third, ordinary source."""
+    base = EPOCH0 * 10**9
+    nfast = rng.choice([12, 20, 40, 80])
+    t = base
+    fast = []
+    for k in range(nfast):
+        t += rng.choice([0, 1, 10, 1000, 1000, 999000, 1000000, 1000000000])
+        fast.append(dict(inst=t, off=rng.choice(OFFSETS), cont=0, frac=9))
+    nslow = 1 if rng.random() < 0.8 else 2
+    picks = sorted(rng.sample(range(nfast), nslow))
+    slow = []
+    for j in picks:
+        x = fast[j]["inst"] + rng.choice([0, 0, 1, -1, 500])
+        if slow and x < slow[-1]["inst"]:
+            x = slow[-1]["inst"]
+        slow.append(dict(inst=x, off=rng.choice(OFFSETS), cont=0, frac=9))
+    srcs = [dict(msgs=fast, kind="sorted", container="plain", role="fast"),
+            dict(msgs=slow, kind="sorted", container="plain", role="slow")]
+    if rng.random() < 0.4:
+        t3 = base
+        third = []
+        for k in range(rng.randrange(1, 9)):
+            t3 += rng.choice([0, 1000, 1000000, 500000000])
+            third.append(dict(inst=t3, off=0, cont=0, frac=6))
+        srcs.append(dict(msgs=third, kind="sorted", container="plain", role="other"))
+    rng.shuffle(srcs)
+    for i, s in enumerate(srcs):
+        s["sid"] = i
+    assign_names(rng, srcs, False)
+    slow_name = [s["name"] for s in srcs if s["role"] == "slow"][0]
+    return dict(sources=srcs, opts=list(rng.choice(opts_choices or [["-n"]])), window=None, as_dir=False,
+                blocked=True, slow_name=slow_name, slow_sends=nslow + 2)
+
+
 def subus_inversions(inp):
     """number of cross-source pairs inside one microsecond whose nanosecond order is the reverse of
     the argument order (the later-named source holds the earlier message)"""
